@@ -4,6 +4,7 @@ package nextroute
 
 import (
 	"context"
+	"fmt"
 	"math"
 	"runtime"
 	"sync"
@@ -102,6 +103,13 @@ func (p *parallelSolverWrapperImpl) Solve(
 
 	if interpretedParallelSolveOptions.StartSolutions == -1 {
 		interpretedParallelSolveOptions.StartSolutions = runtime.NumCPU()
+	}
+
+	if interpretedParallelSolveOptions.StartSolutions < 0 {
+		return nil, fmt.Errorf(
+			"start solutions must be -1 (as many as there are CPUs) or at least 0, it is %v",
+			solveOptions.StartSolutions,
+		)
 	}
 
 	initialSolutions := make(Solutions, interpretedParallelSolveOptions.StartSolutions)
